@@ -110,7 +110,23 @@ func runMoney(w *mc.Worker, id string) {
 	runOriginSeqSpace(w, "origin-L2", 1, 2, peers, func(c *seqCase, oc *originCase) {
 		judgeSeqCaseX(w, c, nil, oc, owns, nontriv, id == "C02", env.Exact)
 	})
-	// a kept share larger than the first, or the first two, of three senders
+	runThreeSendersKept(w, owns, nontriv)
+	if w.Tier == "quick" {
+		stage("send-w2", "source+destination trees of joint weight <= 2, depth <= 1; balances {0,1,3,-2}^2; amounts {0,1,2,4,7}", 2, 1, 1, balQ, amtQ)
+		seq("seq-L2", "all statement sequences of length <= 2 over the 28-statement alphabet (<= 1 deviation statement) x sheets a in {0,1,3,6,-2}, b in {0,2,-2}, x in {0,2}", 2, 1, sheetsQ)
+		stage("send-w3", "source+destination trees of joint weight <= 3, depth <= 2; balances {0,1,3,-2}^2; amounts {0,1,2,4,7}", 3, 2, 2, balQ, amtQ)
+		seq("seq-L3", "all statement sequences of length <= 3 over the 28-statement alphabet (<= 1 deviation statement) x sheets a in {0,1,3,6,-2}, b in {0,2,-2}, x in {0,2}", 3, 1, sheetsQ)
+	} else {
+		stage("send-w3", "source+destination trees of joint weight <= 3, depth <= 2; balances {0,1,3,-2,H}^2; amounts {0,1,2,4,7,H}", 3, 2, 2, append(balQ, H), append(amtQ, H))
+		seq("seq-L3", "all statement sequences of length <= 3 over the 28-statement alphabet (<= 2 deviation statements) x sheets a in {0,1,3,6,-2,H}, b in {0,2,-2}, x in {0,2}, a/EUR in {0,3}", 3, 2, sheetsT)
+		stage("send-w4", "source+destination trees of joint weight <= 4, depth <= 2; balances {0,1,3,-2}^2; amounts {0,1,2,4,7}", 4, 2, 2, balQ, amtQ)
+		seq("seq-L4", "all statement sequences of length 4 over the 22 core statements x sheets a in {0,1,3,6,-2}, b in {0,2,-2}, x in {0,2}", 4, 0, sheetsQ)
+	}
+}
+
+// runThreeSendersKept: a kept share larger than the first, or the first two, of three senders (the
+// first sender smaller than, equal to and larger than the second), with credited clauses after it.
+func runThreeSendersKept(w *mc.Worker, owns func(string) bool, nontriv func(m *ref.Result, out *Out) bool) {
 	w.Stage("three-senders-kept", "send $amt from {@a @b @world} to {max K kept, remaining to @x} and to {max K kept, max 1 to @y, remaining to @x}; K in {1,2,3,4}; balances {0,1,2,3}^2; amounts {1..6}", func() {
 		w.Outer("three-senders-kept/dst", 0, func(o *mc.Explorer) {
 			k := []string{"1", "2", "3", "4"}[o.Choose(4)]
@@ -137,15 +153,4 @@ func runMoney(w *mc.Worker, id string) {
 			})
 		})
 	})
-	if w.Tier == "quick" {
-		stage("send-w2", "source+destination trees of joint weight <= 2, depth <= 1; balances {0,1,3,-2}^2; amounts {0,1,2,4,7}", 2, 1, 1, balQ, amtQ)
-		seq("seq-L2", "all statement sequences of length <= 2 over the 28-statement alphabet (<= 1 deviation statement) x sheets a in {0,1,3,6,-2}, b in {0,2,-2}, x in {0,2}", 2, 1, sheetsQ)
-		stage("send-w3", "source+destination trees of joint weight <= 3, depth <= 2; balances {0,1,3,-2}^2; amounts {0,1,2,4,7}", 3, 2, 2, balQ, amtQ)
-		seq("seq-L3", "all statement sequences of length <= 3 over the 28-statement alphabet (<= 1 deviation statement) x sheets a in {0,1,3,6,-2}, b in {0,2,-2}, x in {0,2}", 3, 1, sheetsQ)
-	} else {
-		stage("send-w3", "source+destination trees of joint weight <= 3, depth <= 2; balances {0,1,3,-2,H}^2; amounts {0,1,2,4,7,H}", 3, 2, 2, append(balQ, H), append(amtQ, H))
-		seq("seq-L3", "all statement sequences of length <= 3 over the 28-statement alphabet (<= 2 deviation statements) x sheets a in {0,1,3,6,-2,H}, b in {0,2,-2}, x in {0,2}, a/EUR in {0,3}", 3, 2, sheetsT)
-		stage("send-w4", "source+destination trees of joint weight <= 4, depth <= 2; balances {0,1,3,-2}^2; amounts {0,1,2,4,7}", 4, 2, 2, balQ, amtQ)
-		seq("seq-L4", "all statement sequences of length 4 over the 22 core statements x sheets a in {0,1,3,6,-2}, b in {0,2,-2}, x in {0,2}", 4, 0, sheetsQ)
-	}
 }
